@@ -209,6 +209,7 @@ pub fn run(ctx: &mut Ctx) {
     ctx.replay_known_and_regressions(&replay);
     let n = ctx.tier.pick(8000, 300_000);
     ctx.run_prop("encode", n, || crate::gen::tape(1200).prop_map(gen_case), judge);
+    crate::fuzz::run_for(ctx);
     let total = ctx.cls.evaluations;
     for shape in ["legacy-nochain", "legacy-chain", "eip2930", "eip1559"] {
         for p in 0..2 {
